@@ -29,6 +29,14 @@ PROGRAMS = [
     "(f :kw 1 #^ int a \\x) [~@b ~ @c]",
 ]
 
+# thorough tier: every ordered pair of these snippets, wrapped alternately in ( ) and [ ] with a space or a newline between
+SNIPS = ["a.b", "\"s\\\"q\"", "#[x[ ]] ]x]", "f\"{a !r :>{w}}b{{c}}\"", "'q", "`(~a ~@b)", "#* r", "#** k", "#^ int x", "#_ d e", "{1 [2 #{3}]}", "#(1 2)", "; c\n z", "b\"\\x00\"", ":k"]
+N_HAND = len(PROGRAMS)
+for _i, _a in enumerate(SNIPS):
+    for _j, _b in enumerate(SNIPS):
+        _o, _c = ("(", ")") if (_i + _j) % 2 else ("[", "]")
+        PROGRAMS.append(_o + "f " + _a + (" " if (_i * 3 + _j) % 3 else "\n  ") + _b + _c + " end")
+
 # inputs after which the same reader object is used again (the REPL keeps one reader for the whole session): reads that
 # were abandoned half-way, with look-ahead pending, and complete ones
 EARLIER = ["(setv x #", "(foo a.)", "[1 2 \"abc", "(a b", "f\"{x", "(ok 1)", "#[q[ ", "'", "(x #* "]
@@ -103,11 +111,11 @@ def finding_key(ob, rec):
 
 def spec(tier, seed):
     obs = []
-    for pi, p in enumerate(PROGRAMS):
+    for pi, p in enumerate(PROGRAMS if tier == "thorough" else PROGRAMS[:N_HAND]):
         fn = "h%d" % pi
         L = ["def %s(n: int) -> bool:" % fn, '    """', "    post: _", '    """', "    return cut_ok(%d, _sk.box(n, 0, %d))" % (pi, len(p))]
         obs.append(Ob(fn, "\n".join(L), sample="every cut point 0..%d of %r" % (len(p), p), group="cut"))
-    reuse = list(range(len(PROGRAMS))) if tier == "thorough" else [0, 4, 6, 14]
+    reuse = list(range(N_HAND)) if tier == "thorough" else [0, 4, 6, 14]
     for pi in reuse:
         p = PROGRAMS[pi]
         fn = "u%d" % pi
@@ -120,7 +128,7 @@ def spec(tier, seed):
     def extra(tier_, seed_, workdir):
         # validate the independent tokenizer on the untruncated programs: each must tokenize and read without error
         recs = []
-        for p in PROGRAMS:
+        for p in (PROGRAMS if tier_ == "thorough" else PROGRAMS[:N_HAND]):
             ok = readerlib.cut_class(p, len(p)) == "between" and readerlib.read_all(p)[0] == "ok"
             recs.append({"name": "wellformed:" + p[:30], "verdict": "CONFIRMED" if ok else "POST_FAIL", "reproduces": None if ok else True, "sample": p, "cex": {"args": [], "kwargs": {}},
                          "replay_detail": "program does not read / scan as complete: %r" % (readerlib.read_all(p),), "paths": 1, "queries": 0, "solver_s": 0.0, "group": "wellformed", "twin": False})
@@ -139,7 +147,8 @@ def spec(tier, seed):
         "bounds": "every cut point of %d well-formed programs (<= %d characters) covering parens/brackets/braces, #( and #{, strings with escaped quotes, bytes, bracket strings with "
                   "delimiters, f-strings with nested fields, comments, every prefix (' ` ~ ~@ #* #** #^ #_), multi-line forms, doubled braces in f-strings; "
                   "plus, for %s programs, every cut point read with a reader object that first read each of %d earlier inputs (abandoned half-way or complete)" % (
-                      len(PROGRAMS), max(len(p) for p in PROGRAMS), "all" if tier == "thorough" else "4", len(EARLIER)),
+                      len(PROGRAMS) if tier == "thorough" else N_HAND, max(len(p) for p in PROGRAMS), "all hand-written" if tier == "thorough" else "4", len(EARLIER))
+                  + ("; thorough tier adds every ordered pair of %d snippets in a wrapper (%d programs)" % (len(SNIPS), len(SNIPS) ** 2) if tier == "thorough" else ""),
         "outside": "other programs; cut points that split an atom or a multi-character prefix token at top level (outside every bracket and pending prefix), or that leave a dotted identifier ending in a dot, are not judged; the REPL's continuation prompt is checked in C40",
         "stubs": ["reader call executed under crosshair.tracers.NoTracing"],
         "assumptions": ["oracle: independent regex tokenizer + frame/pending-prefix state machine in vf/readerlib.py:cut_class"],
